@@ -11,7 +11,9 @@ pub mod c04;
 pub mod c07;
 pub mod c08;
 pub mod c09;
+pub mod c10;
 pub mod c11;
+pub mod c12;
 pub mod c13;
 pub mod c18;
 
@@ -24,7 +26,9 @@ pub fn run(ctx: &Ctx) -> i32 {
         "C07" => c07::run(ctx),
         "C08" => c08::run(ctx),
         "C09" => c09::run(ctx),
+        "C10" => c10::run(ctx),
         "C11" => c11::run(ctx),
+        "C12" => c12::run(ctx),
         "C13" => c13::run(ctx),
         "C18" => c18::run(ctx),
         other => {
@@ -45,7 +49,9 @@ pub fn replay_case(prop: &str, sub: &str, case: Value) -> Result<(), String> {
         "C07" => c07::replay(sub, case),
         "C08" => c08::replay(sub, case),
         "C09" => c09::replay(sub, case),
+        "C10" => c10::replay(sub, case),
         "C11" => c11::replay(sub, case),
+        "C12" => c12::replay(sub, case),
         "C13" => c13::replay(sub, case),
         "C18" => c18::replay(sub, case),
         other => Err(format!("HARNESS: no replay for property {other}")),
